@@ -20,6 +20,7 @@ Section Generic.
   Notation emitted_ops := (emitted_ops method_name).
   Notation group := (group tag_key).
   Notation group_step := (group_step tag_key).
+  Notation group_tags := (group_tags tag_key).
   Notation candidates := (candidates tag_key).
   Notation cv_candidates := (cv_candidates tag_key).
   Notation emitter_tags := (emitter_tags tag_key score).
@@ -271,7 +272,7 @@ Section Generic.
   Qed.
 
   Definition contrib (k : str) (o : op) : list op :=
-    map (fun _ => o) (filter (fun t => str_eqb k (tag_key t)) (tags_or_default o)).
+    map (fun _ => o) (filter (fun t => str_eqb k (tag_key t)) (group_tags o)).
 
   Lemma group_step_lookup : forall (o : op) (ts : list str) k (d : list (str * list op)),
     alookup_l k (fold_left (fun d t => aappend d (tag_key t) o) ts d)
@@ -320,20 +321,20 @@ Section Generic.
     - destruct (str_eqb (tag_key t) (tag_key t')); simpl; [lia | apply IH, Hin].
   Qed.
 
-  Lemma contrib_le1 : forall o k, nodupb (map tag_key (tags_or_default o)) = true ->
+  Lemma contrib_le1 : forall o k, nodupb (map tag_key (group_tags o)) = true ->
     contrib k o = [o] \/ contrib k o = [].
   Proof.
     intros o k H. apply nodupb_NoDup in H. pose proof (nodup_filter_le1 _ k H) as L.
-    unfold contrib. destruct (filter _ (tags_or_default o)) as [|a [|b r]]; simpl in *;
+    unfold contrib. destruct (filter _ (group_tags o)) as [|a [|b r]]; simpl in *;
       [right; reflexivity | left; reflexivity | lia].
   Qed.
 
-  Lemma contrib_in1 : forall o t, nodupb (map tag_key (tags_or_default o)) = true ->
-    In t (tags_or_default o) -> contrib (tag_key t) o = [o].
+  Lemma contrib_in1 : forall o t, nodupb (map tag_key (group_tags o)) = true ->
+    In t (group_tags o) -> contrib (tag_key t) o = [o].
   Proof.
     intros o t H Hin. destruct (contrib_le1 o (tag_key t) H) as [E|E]; [exact E|].
     pose proof (in_filter_ge1 _ t Hin) as G. unfold contrib in E.
-    destruct (filter _ (tags_or_default o)); simpl in *; [lia | discriminate].
+    destruct (filter _ (group_tags o)); simpl in *; [lia | discriminate].
   Qed.
 
   (* operations of a document are pairwise distinct as (METHOD, path) — keys of a JSON/YAML object *)
@@ -341,7 +342,7 @@ Section Generic.
     NoDup l /\ forall a b, In a l -> In b l -> same_op a b = true -> a = b.
 
   Lemma count_flat_map : forall o l k,
-    (forall o', In o' l -> nodupb (map tag_key (tags_or_default o')) = true) ->
+    (forall o', In o' l -> nodupb (map tag_key (group_tags o')) = true) ->
     (forall b, In b l -> same_op o b = true -> o = b) ->
     count_op o (flat_map (contrib k) l)
     = length (filter (fun o' => same_op o o' && negb (is_nil (contrib k o'))) l).
@@ -380,18 +381,46 @@ Section Generic.
       + apply (IH o Hn' Hin Hf). intros b Hb. apply Hu. right. exact Hb.
   Qed.
 
-  (* every operation appears exactly once in the group of each of its tags, provided no operation
-     carries two spellings of one tag *)
-  Theorem once_per_tag_partial : forall l,
-    distinct_ops l -> guard_F07c tag_key l = true -> once_per_tag tag_key l.
+  (* keys_of_op keeps the first spelling per key *)
+  Lemma dedup_keys_inv : forall ts seen,
+    NoDup (map tag_key (dedup_keys_go tag_key seen ts))
+    /\ (forall x, In x (map tag_key (dedup_keys_go tag_key seen ts)) -> ~ In x seen)
+    /\ (forall t, In t ts -> In (tag_key t) seen \/ In (tag_key t) (map tag_key (dedup_keys_go tag_key seen ts))).
   Proof.
-    intros l [Hn Hd] Hg o t Hin Ht.
-    assert (G : forall o', In o' l -> nodupb (map tag_key (tags_or_default o')) = true).
-    { apply forallb_forall. exact Hg. }
+    induction ts as [|t ts IH]; intro seen; simpl.
+    - split; [constructor | split; [intros x [] | intros t []]].
+    - destruct (mem_str (tag_key t) seen) eqn:E.
+      + destruct (IH seen) as (I1 & I2 & I3). split; [exact I1 | split; [exact I2|]].
+        intros t' [<-|Hin]; [left; apply mem_str_In, E | apply I3, Hin].
+      + destruct (IH (tag_key t :: seen)) as (I1 & I2 & I3). simpl. split; [|split].
+        * constructor; [|exact I1]. intro Hin. apply (I2 _ Hin). left. reflexivity.
+        * intros x [<-|Hin]; [apply mem_str_false, E|]. intro Hs. apply (I2 _ Hin). right. exact Hs.
+        * intros t' [<-|Hin]; [right; left; reflexivity|].
+          destruct (I3 _ Hin) as [[Heq|Hs]|Hr]; [right; left; exact Heq | left; exact Hs | right; right; exact Hr].
+  Qed.
+
+  Lemma group_tags_nodupb : forall o, nodupb (map tag_key (group_tags o)) = true.
+  Proof. intro o. apply nodupb_NoDup. apply (dedup_keys_inv (tags_or_default o) []). Qed.
+
+  Lemma group_tags_key_in : forall o t, In t (tags_or_default o) ->
+    exists t', In t' (group_tags o) /\ tag_key t' = tag_key t.
+  Proof.
+    intros o t Hin. destruct (dedup_keys_inv (tags_or_default o) []) as (_ & _ & I3).
+    destruct (I3 t Hin) as [[]|H]. apply in_map_iff in H. destruct H as [t' [E H]]. exists t'. split; assumption.
+  Qed.
+
+  (* F07c fixed: every operation appears exactly once in the group of each of its tags — for every
+     operation list with distinct (METHOD, path) pairs, however its tags are spelled *)
+  Theorem once_per_tag_full : forall l, distinct_ops l -> once_per_tag tag_key l.
+  Proof.
+    intros l [Hn Hd] o t Hin Ht.
+    assert (G : forall o', In o' l -> nodupb (map tag_key (group_tags o')) = true)
+      by (intros; apply group_tags_nodupb).
+    destruct (group_tags_key_in o t Ht) as [t' [Ht' Ek]].
     assert (C : count_op o (alookup_l (tag_key t) (group l)) = 1%nat).
     { rewrite group_lookup, count_flat_map; [|exact G | intros b Hb; apply Hd; assumption].
       apply (count_one _ l o Hn Hin).
-      - rewrite same_op_refl, (contrib_in1 o t (G o Hin) Ht). reflexivity.
+      - rewrite same_op_refl, <- Ek, (contrib_in1 o t' (G o Hin) Ht'). reflexivity.
       - intros b Hb E. apply andb_true_iff in E. destruct E as [E _]. apply Hd; assumption. }
     unfold alookup_l in C. destruct (alookup (tag_key t) (group l)) as [g|] eqn:E.
     - exists g. split; [reflexivity | exact C].
@@ -430,7 +459,7 @@ Section Generic.
     intro l. unfold Tags.group.
     assert (G : forall l d, NoDup (map fst d) -> NoDup (map fst (fold_left group_step l d))).
     { induction l0 as [|o l0 IH]; intros d Hd; simpl; [exact Hd|]. apply IH.
-      unfold Tags.group_step. generalize (tags_or_default o). intro ts. revert d Hd.
+      unfold Tags.group_step. generalize (group_tags o). intro ts. revert d Hd.
       induction ts as [|t ts IHt]; intros d Hd; simpl; [exact Hd|].
       apply IHt. apply aappend_keys, Hd. }
     apply G. constructor.
@@ -447,7 +476,7 @@ Section Generic.
   Qed.
 
   Lemma flat_map_contrib_filter : forall l k,
-    (forall o', In o' l -> nodupb (map tag_key (tags_or_default o')) = true) ->
+    (forall o', In o' l -> nodupb (map tag_key (group_tags o')) = true) ->
     flat_map (contrib k) l = filter (fun o => negb (is_nil (contrib k o))) l.
   Proof.
     induction l as [|a l IH]; intros k Hg; simpl; [reflexivity|].
@@ -455,36 +484,15 @@ Section Generic.
     destruct (contrib_le1 a k (Hg a (or_introl eq_refl))) as [E|E]; rewrite E; reflexivity.
   Qed.
 
-  (* if the emitted method names are globally unique and no operation repeats a tag, every client
-     has unique method names *)
-  Theorem names_unique_partial : forall e,
-    NoDup (map mn e) -> guard_F07c tag_key e = true -> names_unique method_name tag_key e.
+  (* if the emitted method names are globally unique, every client has unique method names *)
+  Theorem names_unique_full : forall e, NoDup (map mn e) -> names_unique method_name tag_key e.
   Proof.
-    intros e Hn Hg k g Hin.
-    assert (G : forall o', In o' e -> nodupb (map tag_key (tags_or_default o')) = true).
-    { apply forallb_forall. exact Hg. }
+    intros e Hn k g Hin.
+    assert (G : forall o', In o' e -> nodupb (map tag_key (group_tags o')) = true)
+      by (intros; apply group_tags_nodupb).
     pose proof (alookup_in _ _ _ (group_keys_nodup e) Hin) as L.
     pose proof (group_lookup e k) as GL. unfold alookup_l in GL. rewrite L in GL. subst g.
     rewrite (flat_map_contrib_filter e k G). apply NoDup_map_filter, Hn.
-  Qed.
-
-  Lemma dedup_go_tags : forall l used, map o_tags (dedup_go used l) = map o_tags l.
-  Proof.
-    intros l used. pose proof (dedup_go_shape l used) as S.
-    induction S as [|a b l1 l2 H _ IH]; simpl; [reflexivity|].
-    destruct (suffixed_tags _ _ H) as (E & _). rewrite E, IH. reflexivity.
-  Qed.
-
-  Lemma guard_F07c_tags : forall a b, map o_tags a = map o_tags b -> guard_F07c tag_key a = guard_F07c tag_key b.
-  Proof.
-    induction a as [|x a IH]; destruct b as [|y b]; simpl; intro H; try discriminate; [reflexivity|].
-    inversion H as [[H1 H2]]. unfold tags_or_default. rewrite H1. f_equal. apply IH, H2.
-  Qed.
-
-  Theorem emitted_guard_F07c : forall l, guard_F07c tag_key (emitted_ops l) = guard_F07c tag_key l.
-  Proof.
-    intro l. apply guard_F07c_tags. unfold Tags.emitted_ops, Tags.dedup_ops.
-    rewrite !dedup_go_tags. reflexivity.
   Qed.
 
   (* ---------------------------------------------------------------- the guarded statement *)
@@ -523,24 +531,22 @@ Section Generic.
     doc_distinct doc ->
     guard_F07f method_name clean_id st doc = true ->
     dedup_total method_name (parse st doc) = true ->
-    guard_F07c tag_key (parse st doc) = true ->
     let e := emitted_ops (parse st doc) in
     length e = length (ops doc)
     /\ once_per_tag tag_key e
     /\ names_unique method_name tag_key e
     /\ client_tags e = Some (emitter_tags e).
   Proof.
-    intros st doc Hdd Hb Ha Hc e.
+    intros st doc Hdd Hb Ha e.
     destruct (emitted_unique _ Ha) as [E1 E2].
-    assert (Hc' : guard_F07c tag_key e = true) by (unfold e; rewrite emitted_guard_F07c; exact Hc).
     assert (Hd : distinct_ops e).
     { apply distinct_from_mp. unfold e, Tags.emitted_ops, Tags.dedup_ops. rewrite !dedup_go_mp.
       rewrite (guard_none_dropped st doc Hb), map_map. exact Hdd. }
     repeat split.
     - unfold e. rewrite E1. unfold Tags.dedup_ops. rewrite dedup_go_length.
       rewrite (guard_none_dropped st doc Hb). apply map_length.
-    - apply once_per_tag_partial; assumption.
-    - apply names_unique_partial; assumption.
+    - apply once_per_tag_full; assumption.
+    - apply names_unique_full; assumption.
     - apply clients_mirror.
   Qed.
 End Generic.
@@ -613,12 +619,16 @@ Definition s_users : str := [117;115;101;114;115].
 Definition key_F07c : str -> str := tbl_fun [(s_Users, s_users)].
 Definition op_F07c : op := {| o_id := s_a; o_method := s_GET; o_path := s_pa; o_tags := [s_Users; s_users] |}.
 
-Theorem refuted_F07c :
-  guard_F07c key_F07c [op_F07c] = false /\ ~ once_per_tag key_F07c [op_F07c].
+(* F07c FIXED — regression: the operation is once in the users group *)
+Theorem fixed_F07c :
+  group key_F07c [op_F07c] = [(s_users, [op_F07c])]
+  /\ candidates key_F07c [op_F07c] = [(s_users, [s_Users; s_users])]
+  /\ once_per_tag key_F07c [op_F07c].
 Proof.
-  split; [vm_compute; reflexivity|]. intro H.
-  destruct (H op_F07c s_Users (or_introl eq_refl) (or_introl eq_refl)) as [g [E C]].
-  vm_compute in E. inversion E; subst g. vm_compute in C. discriminate.
+  split; [vm_compute; reflexivity|]. split; [vm_compute; reflexivity|].
+  apply once_per_tag_full. split.
+  - constructor; [intros [] | constructor].
+  - intros a b [<-|[]] [<-|[]] _. reflexivity.
 Qed.
 
 (* F07d — tag "-" *)
@@ -664,7 +674,6 @@ Theorem guard_nonvacuous :
   doc_distinct doc_ok
   /\ guard_F07f idf no_clean SOpId doc_ok = true
   /\ dedup_total idf (parse idf no_clean SOpId doc_ok) = true
-  /\ guard_F07c key_F07c (parse idf no_clean SOpId doc_ok) = true
   /\ length (ops doc_ok) = 2%nat
   /\ map o_id (emitted_ops idf (parse idf no_clean SOpId doc_ok)) = [s_a; s_a ++ [95;50]].
 Proof.
